@@ -344,7 +344,10 @@ def _c19(ctx):
     i1.floor('guarded regions', nreg, 2)
     r6, n6 = exc.rule_X6(ctx, SCOPES['C19'])
     r6.floor('loops', n6, 40)
-    return [dsp, i1] + _exc_rules(ctx, 'C19', with_lookup=False) + [r6, _x2v(ctx)]
+    from .rules import caps
+    cap, ncap = caps.rule_CAP1(ctx)
+    cap.floor('engine evaluations in GravityCircle', ncap, 3)
+    return [dsp, i1, cap] + _exc_rules(ctx, 'C19', with_lookup=False) + [r6, _x2v(ctx)]
 
 
 def _c20(ctx):
